@@ -5,7 +5,7 @@
 (* action binds the logged fields and evaluates the property rules of       *)
 (* DESIGN.md Appendix B against the Ref layer.                              *)
 (***************************************************************************)
-EXTENDS TraceBase, Compress, NameText, Bytes
+EXTENDS TraceBase, Compress, NameText, Txt, Values
 
 VARIABLES l          \* index of the next event to consume
 vars == <<l>>
@@ -297,6 +297,63 @@ TraceSinkBuild ==
              <<Ev.kind, Ev.mode, "start", Ev.start, "cap", Ev.cap, "prefill", Len(pre), "need", n, "after", Len(a),
                "first-diff", IF Ev.out[1] = "ok" /\ Len(a) >= Ev.start + n THEN FirstDiff(Ev.ref, SubSeq(a, Ev.start + 1, Ev.start + n)) ELSE 0>>)
 
+(* C19: TXT conversions.                                                          *)
+(* TxtSplit: text e.s (code points) -> TXT::try_from(&str) pieces -> String        *)
+(*   e.out = <<"ok", pieces, joined>> | <<"err">>; joined = <<"ok", cps>> | <<"err">> *)
+TraceTxtSplit ==
+  /\ Ev.ev = "TxtSplit"
+  /\ Rule(l, "NoPanic", Ev.out[1] # "panic", <<"TXT::try_from(&str)", Len(Ev.s)>>)
+  /\ Rule(l, "TxtPieces", Ev.out[1] = "ok" /\ PiecesOK(Ev.s, Ev.out[2]),
+          <<"pieces", Len(Ev.s), Ev.out[1], IF Ev.out[1] = "ok" THEN [i \in 1 .. Len(Ev.out[2]) |-> Len(Ev.out[2][i])] ELSE <<>>>>)
+  /\ Rule(l, "TxtJoin", Ev.out[1] = "ok" => Ev.out[3] = <<"ok", Ev.s>>, <<"join", Len(Ev.s)>>)
+
+(* TxtAttrs: attribute map e.m (sequence of <<key cps, value>>) -> TXT -> attributes() *)
+(*   e.out = <<"ok", strings, back>> | <<"err">>; back = sequence of <<key cps, value>> *)
+SeqSet(q) == {q[i] : i \in 1 .. Len(q)}
+TraceTxtAttrs ==
+  /\ Ev.ev = "TxtAttrs"
+  /\ LET within == \A i \in 1 .. Len(Ev.m) : AttrWithinLimits(Ev.m[i][1], Ev.m[i][2]) IN
+     /\ Rule(l, "NoPanic", Ev.out[1] # "panic", <<"TXT::try_from(map)">>)
+     /\ Rule(l, "TxtAttrs", within => (Ev.out[1] = "ok" /\ SeqSet(Ev.out[3]) = SeqSet(Ev.m) /\ Len(Ev.out[3]) = Len(Ev.m)),
+             <<"map", Ev.m, "back", IF Ev.out[1] = "ok" THEN Ev.out[3] ELSE <<>>>>)
+     /\ Rule(l, "CStrLimit", (~within /\ \A i \in 1 .. Len(Ev.m) : Equals \notin SeqSet(Ev.m[i][1])) => Ev.out[1] = "err",
+             <<"over-long entry accepted">>)
+
+(* TxtRaw: a TXT made of the raw strings e.strs (valid UTF-8) -> attributes(): e.back (byte keys/values) *)
+TraceTxtRaw ==
+  /\ Ev.ev = "TxtRaw"
+  /\ Rule(l, "TxtAttrs", SeqSet(Ev.back) = AttrsOfStrings(Ev.strs) /\ Len(Ev.back) = Cardinality(AttrsOfStrings(Ev.strs)),
+          <<"strings", Ev.strs, "back", Ev.back>>)
+
+(* TxtLong: text e.s -> TXT -> long_attributes(): e.out = <<"ok", pairs>> | <<"err">> *)
+TraceTxtLong ==
+  /\ Ev.ev = "TxtLong"
+  /\ Rule(l, "NoPanic", Ev.out[1] # "panic", <<"long_attributes">>)
+  /\ Rule(l, "TxtLong", Ev.out[1] = "ok" /\ SeqSet(Ev.out[2]) = LongAttrs(Ev.s) /\ Len(Ev.out[2]) = Cardinality(LongAttrs(Ev.s)),
+          <<"text", Ev.s, "got", IF Ev.out[1] = "ok" THEN Ev.out[2] ELSE <<>>>>)
+
+(* CStrNew: a character-string of e.n bytes constructed via e.via: accepted iff n <= 255 *)
+TraceCStrNew ==
+  /\ Ev.ev = "CStrNew"
+  /\ Rule(l, "CStrLimit", Ev.ok = (Ev.n <= 255), <<Ev.via, Ev.n, Ev.ok>>)
+  /\ Rule(l, "CStrLimit", Ev.ok => Ev.wire = Ev.n + 1, <<Ev.via, Ev.n, "wire", Ev.wire>>)
+
+(* ValueCmp (C16): two values of kind e.kind related by e.how                       *)
+(*  ("own" / "clone": b derived from a; "parsed-vs-built", "ttl-cf-differs",        *)
+(*   "order", "differs": built independently).  e.a / e.b projections,              *)
+(*  e.haseq /\ e.eq: result of ==, e.ha / e.hb: 64-bit hashes (bytes) or <<>>,      *)
+(*  e.ba / e.bb: serialised bytes                                                    *)
+TraceValueCmp ==
+  /\ Ev.ev = "ValueCmp"
+  /\ Rule(l, "NoPanic", ~Ev.panicked, <<Ev.kind, Ev.how>>)
+  /\ Rule(l, "OwnEqual",
+          Ev.how \in {"own", "clone"} => (Ev.a = Ev.b /\ Ev.ba = Ev.bb /\ (Ev.haseq => Ev.eq)),
+          <<Ev.kind, Ev.how, "proj-equal", Ev.a = Ev.b, "bytes-equal", Ev.ba = Ev.bb, "eq", Ev.eq>>)
+  /\ Rule(l, "EqSpec", Ev.haseq => (Ev.eq = SpecEq(Ev.kind, Ev.a, Ev.b)),
+          <<Ev.kind, Ev.how, "eq", Ev.eq, "spec", SpecEq(Ev.kind, Ev.a, Ev.b)>>)
+  /\ Rule(l, "EqHash", (Ev.haseq /\ Ev.eq /\ Ev.ha # <<>>) => Ev.ha = Ev.hb,
+          <<Ev.kind, Ev.how, "equal values hash differently">>)
+
 (* Reparse (C11): bytes e.b accepted by the parser (e.p1), re-serialised plain  *)
 (* (e.b2) and compressed (e.b3), each parsed again (e.p2, e.p3)                 *)
 TraceReparse ==
@@ -318,7 +375,8 @@ Next == /\ l <= Len(Rec)
            \/ TraceFlagOps
            \/ TraceNameDecode
            \/ TraceNameNew \/ TraceLabelNew \/ TraceNameRel
-           \/ TraceParse \/ TracePeek \/ TraceInspect \/ TraceSinkBuild \/ TraceRoundTrip \/ TraceReparse
+           \/ TraceTxtSplit \/ TraceTxtAttrs \/ TraceTxtRaw \/ TraceTxtLong \/ TraceCStrNew
+           \/ TraceValueCmp \/ TraceParse \/ TracePeek \/ TraceInspect \/ TraceSinkBuild \/ TraceRoundTrip \/ TraceReparse
            \/ TraceCodeConv \/ TraceMnemonics \/ TraceMatchType \/ TraceMatchClass
 
 Spec == Init /\ [][Next]_vars
